@@ -364,3 +364,49 @@ def renderDoc (tbl : SqlglotModel.Expr.Tables) (ws : Nat → Str) : Nat → List
 
 
 end SqlglotModel.Pretty
+
+namespace SqlglotModel.Pretty
+
+/-- AUDITED ALLOW-LIST (re-audited at commit 027bf59): the generator methods that post-process rendered text with
+    position-dependent string operations.  Operations marked `/nocomment` act on text rendered with `comment=False`, so no
+    comment text can steer them (the translator derives the mark from the `comment=False` keyword of every rendering call
+    feeding the value): `_embed_ignore_nulls` (drops the call's closing paren) and — since 027bf59 — duckdb
+    `withingroup_sql`, which used to `rstrip(")")` a comment-bearing render (defect found by this check, fixed upstream:
+    the new site slices exactly one `)` off a comment-free render and re-attaches the comments).  The other `slice` sites
+    (bitwisenot / withingroup / tsql) look at the first or last character of text they just produced; the strip / lstrip
+    sites only trim whitespace.  A new site, or a new operation on an old site (e.g. `rfind` on text rendered WITH
+    comments), is not on the list and breaks `generated_surgery_sites_audited`; all sites are exercised by the
+    comment-structure sweep of the search stage. -/
+def auditedSurgerySites : List (String × String × String) :=
+  [("sqlglot/generator.py", "_embed_ignore_nulls", "slice/nocomment"),
+   ("sqlglot/generator.py", "alter_sql", "lstrip"),
+   ("sqlglot/generator.py", "bitwisenot_sql", "slice"),
+   ("sqlglot/generator.py", "columnconstraint_sql", "strip"),
+   ("sqlglot/generator.py", "conditionalinsert_sql", "slice"),
+   ("sqlglot/generator.py", "conditionalinsert_sql", "strip"),
+   ("sqlglot/generator.py", "filter_sql", "strip"),
+   ("sqlglot/generator.py", "generate", "replace"),
+   ("sqlglot/generator.py", "generate", "strip"),
+   ("sqlglot/generator.py", "group_sql", "strip"),
+   ("sqlglot/generator.py", "hint_sql", "strip"),
+   ("sqlglot/generator.py", "jsonpath_sql", "lstrip"),
+   ("sqlglot/generator.py", "lambda_sql", "split"),
+   ("sqlglot/generator.py", "userdefinedfunction_sql", "strip"),
+   ("sqlglot/generator.py", "withingroup_sql", "slice"),
+   ("sqlglot/generators/clickhouse.py", "in_sql", "replace"),
+   ("sqlglot/generators/duckdb.py", "bitwisenot_sql", "slice"),
+   ("sqlglot/generators/duckdb.py", "withingroup_sql", "slice/nocomment"),
+   ("sqlglot/generators/hive.py", "version_sql", "replace"),
+   ("sqlglot/generators/oracle.py", "hint_sql", "strip"),
+   ("sqlglot/generators/tsql.py", "_string_agg_sql", "slice"),
+   ("sqlglot/generators/tsql.py", "create_sql", "replace"),
+   ("sqlglot/generators/tsql.py", "createable_sql", "slice"),
+   ("sqlglot/generators/tsql.py", "identifier_sql", "slice"),
+   ("sqlglot/generators/tsql.py", "storedprocedure_sql", "strip")]
+
+theorem maybeComment_append (o : Opts) (sql : Str) (cs : List Str) :
+    maybeComment o true sql cs = sql ++ maybeComment o true [] cs := by
+  simp only [maybeComment, Bool.not_true, Bool.false_eq_true, if_false]
+  split <;> simp
+
+end SqlglotModel.Pretty
